@@ -300,7 +300,12 @@ impl Gen {
                 let selected: Option<Vec<u64>> = if rng.chance(1, 4) {
                     // the admin is honest: forced recovery only ever names refundable packets.
                     // everybody else may name anything (and must be refused).
-                    let pool: Vec<u64> = if caller == sc.admin || rng.chance(3, 4) { refundable.iter().filter(|p| Some(&p.receiver) == receiver.as_ref() || (receiver.is_none() && p.receiver == o.staker())).map(|p| p.seq).collect() } else { o.queue.iter().map(|p| p.seq).collect() };
+                    // a slip of the admin: packets of somebody else than the receiver named (must be refused)
+                    let slip = caller == sc.admin && rng.chance(1, 5);
+                    let pool: Vec<u64> = if slip {
+                        let want = receiver.clone().unwrap_or_else(|| o.staker());
+                        refundable.iter().filter(|p| p.receiver != want).map(|p| p.seq).collect()
+                    } else if caller == sc.admin || rng.chance(3, 4) { refundable.iter().filter(|p| Some(&p.receiver) == receiver.as_ref() || (receiver.is_none() && p.receiver == o.staker())).map(|p| p.seq).collect() } else { o.queue.iter().map(|p| p.seq).collect() };
                     if pool.is_empty() {
                         if caller == sc.admin { None } else { Some(vec![rng.below(50)]) }
                     } else {
